@@ -31,6 +31,7 @@ ROBOTS = {
     'twogroups': 'User-agent: otherbot\nUser-agent: wpull\nDisallow: /open\n\n'
                  'User-agent: *\nDisallow: /\n',
     'prefix-nonl': 'User-agent: *\nDisallow: /priv',          # no final newline
+    'query': 'User-agent: *\nDisallow: /open?x=1\nDisallow: /pub/y?\n',
 }
 SERVE = ['plain', 'chunked', 'redirect', 'redirect-body', 's500', 's404', 's403']
 REDIRECT_BODY = ('<html><head><title>301 Moved Permanently</title></head><body><center>'
@@ -38,14 +39,20 @@ REDIRECT_BODY = ('<html><head><title>301 Moved Permanently</title></head><body><
                  '</body></html>\n' * 2)
 
 LINKS = ['/priv/x', '/pub/y', '/priv/ok/z', '/priv2', '/open', '/pub/../priv/w']
+QUERY_LINKS = ['/open', '/open?x=1', '/open?x=2', '/pub/y?z', '/pub/y']
+
+
+def links_for(params):
+    return QUERY_LINKS if params['robots'] == 'query' else LINKS
 
 
 def build_site(params):
     rb = ROBOTS[params['robots']]
     serve = params.get('serve', 'plain')
-    pages = {'/': {'links': list(LINKS)}}
-    for l in LINKS:
-        pages[crawlref.remove_dots(l)] = {'links': ['/']}
+    pages = {'/': {'links': list(links_for(params))}}
+    for l in links_for(params):
+        path, q, query = l.partition('?')
+        pages[crawlref.remove_dots(path) + q + query] = {'links': ['/']}
     if params.get('nofollow'):
         pages['/'] = {'links': ['/nf', '/open']}
         pages['/nf'] = {'links': ['/hidden1', '/hidden2'], 'reqs': ['/nfimg.png'],
@@ -213,8 +220,9 @@ def judge(params, site, ua, out, events):
         status, text = effective_robots(site, 'a.test')
         fetched = {q['target'] for q in out['requests'] if origin_of(q) == 'a.test'}
         if '/' in fetched:
-            for l in LINKS:
-                p = crawlref.remove_dots(l)
+            for l in links_for(params):
+                path, q, query = l.partition('?')
+                p = crawlref.remove_dots(path) + q + query
                 ok = not (status == 200 and text is not None) or robotsref.allowed(text, ua, p)
                 if status in (401, 403):
                     continue
